@@ -1,7 +1,7 @@
 (** C12 - Collection built-ins obey the invariants and equations the manual states.
     Model: Val/Val.v [sort_by] (stable insertion sort = the contract of Rust's stable sorts), Std/Natives.v. *)
 From Coq Require Import List ZArith Sorting.Permutation Sorting.Sorted.
-From JaqV Require Import Base.Stream Val.Num Val.Val Std.Natives Proofs.SortLaws Proofs.ValOrder Proofs.GroupLaws Proofs.SearchLaws Proofs.SearchText Val.Index Val.Err Base.Bytes.
+From JaqV Require Import Base.Stream Val.Num Val.Val Std.Natives Proofs.SortLaws Proofs.ValOrder Proofs.GroupLaws Proofs.SearchLaws Proofs.SearchText Proofs.TrimLaws Proofs.SortIdem Proofs.UniqueLaws Val.Arith Val.Index Val.Err Base.Bytes.
 Import ListNotations.
 
 Lemma insert_by_perm {A} (c : A -> A -> comparison) a l : Permutation (a :: l) (insert_by c a l).
@@ -113,3 +113,40 @@ Theorem indices_of_text_count_characters : forall x y, y <> [] ->
   = Ok (Arr (map vint (map Z.of_nat (filter (fun k => SearchText.hit x y (nth k (char_starts x) 0%Z)) (seq 0 (length (char_starts x))))))).
 Proof. exact SearchText.indices_text. Qed.
 Print Assumptions indices_of_text_count_characters.
+
+(** sorting a sorted array changes nothing: `sort | sort` = `sort` for every total preorder (Proofs/SortIdem.v) *)
+Theorem sort_is_idempotent : forall A (c : A -> A -> comparison), SortLaws.total_preorder A c ->
+  forall l, sort_by c (sort_by c l) = sort_by c l.
+Proof. exact @SortIdem.sort_idempotent. Qed.
+Print Assumptions sort_is_idempotent.
+
+(** startswith / endswith test for a prefix / suffix, on every byte string (Proofs/TrimLaws.v; Std/Natives.v uses [is_prefix] and
+    [is_suffix] for them) ... *)
+Theorem startswith_is_prefix : forall p x : Bytes.bytes, is_prefix p x = true <-> exists t, x = p ++ t.
+Proof. exact TrimLaws.is_prefix_spec. Qed.
+Print Assumptions startswith_is_prefix.
+
+Theorem endswith_is_suffix : forall p x : Bytes.bytes, is_suffix p x = true <-> exists t, x = t ++ p.
+Proof. exact TrimLaws.is_suffix_spec. Qed.
+Print Assumptions endswith_is_suffix.
+
+(** ... and ltrimstr / rtrimstr remove exactly that prefix / suffix: what remains is the rest, and putting the prefix (suffix)
+    back gives the string (`ltrimstr($p) | $p + .` = `.` whenever `startswith($p)`) *)
+Theorem ltrimstr_removes_the_prefix : forall p x t : Bytes.bytes,
+  (is_prefix p x = true -> p ++ skipn (length p) x = x) /\ skipn (length p) (p ++ t) = t.
+Proof. intros p x t. split; [apply TrimLaws.ltrim_restores|apply TrimLaws.ltrim_is_the_rest]. Qed.
+Print Assumptions ltrimstr_removes_the_prefix.
+
+Theorem rtrimstr_removes_the_suffix : forall p x t : Bytes.bytes,
+  (is_suffix p x = true -> firstn (length x - length p) x ++ p = x) /\ firstn (length (t ++ p) - length p) (t ++ p) = t.
+Proof. intros p x t. split; [apply TrimLaws.rtrim_restores|apply TrimLaws.rtrim_is_the_rest]. Qed.
+Print Assumptions rtrimstr_removes_the_suffix.
+
+(** `unique_by(f)` = `[group_by(f)[] | .[0]]` (its definition in defs.jq) keeps the first of each run: the first elements of the
+    groups are exactly the elements of the stably sorted keyed list at which a new key starts (Proofs/UniqueLaws.v) *)
+Theorem unique_by_keeps_the_first_of_each_run : forall f xs kx, keyed f xs = (kx, FEnd) ->
+  let sorted := sort_by (fun a b => keys_cmp (fst a) (fst b)) kx in
+  exists groups, group_by_f f xs = sone (Arr (map (fun g => Arr (map snd g)) groups))
+    /\ map snd (flat_map UniqueLaws.head_of groups) = map snd (UniqueLaws.firsts None sorted).
+Proof. exact UniqueLaws.unique_by_keeps_the_first_of_each_run. Qed.
+Print Assumptions unique_by_keeps_the_first_of_each_run.
